@@ -360,6 +360,10 @@ fn get_dir_name() -> String {
 
 #[cfg(not(test))]
 fn get_dir_name() -> String {
+    #[cfg(feature = "verif_hooks")]
+    if let Some(d) = crate::verif::data_dir() {
+        return d;
+    }
     use crate::configuration::NUN_DBS_DIR;
     NUN_DBS_DIR.to_string()
 }
